@@ -120,6 +120,42 @@ def adversarial_designs():
         m.i1 = L()(a=m.i0.a, b=m.v)
         return m
     yield ("adv/mixed-kinds", b5)
+    # 6. invented names clashing with EACH OTHER (nothing declared by the designer): members of one bundle instance
+    #    composing to the same flat name, and implicit port-reference signals of two instances doing so
+    for order in (0, 1):
+        def b6(order=order):
+            L = leaf()
+            Sub = h.Bundle(name="SubB")
+            Sub.add(h.Signal(name="b"))
+            Z = h.Bundle(name="ZB")
+            parts = [lambda: Z.add(h.Signal(name="a_b")), lambda: Z.add(Sub(), name="a")]
+            for f in (parts if order == 0 else parts[::-1]):
+                f()
+            m = h.Module(name="AdvSelf")
+            m.v = h.Signal()
+            m.z = Z()
+            m.l1 = L()(a=m.z.a_b, b=m.v)
+            m.l2 = L()(a=m.z.a.b, b=m.v)
+            return m
+        yield (f"adv/self-clash/bundle-members/{order}", b6)
+
+        def b7(order=order):
+            P1 = h.ExternalModule(name="P1", port_list=[h.Inout(name="a_b"), h.Inout(name="c")], desc="", domain="adv")
+            P2 = h.ExternalModule(name="P2", port_list=[h.Inout(name="b"), h.Inout(name="c")], desc="", domain="adv")
+            m = h.Module(name="AdvSelf2")
+            m.v = h.Signal()
+            m.i0 = P1()(c=m.v)
+            m.i0_a = P2()(c=m.v)
+            m.j0 = P1()(c=m.v)
+            m.j1 = P2()(c=m.v)
+            if order == 0:
+                m.j0.a_b = m.i0.a_b
+                m.j1.b = m.i0_a.b
+            else:
+                m.j1.b = m.i0_a.b
+                m.j0.a_b = m.i0.a_b
+            return m
+        yield (f"adv/self-clash/portref-signals/{order}", b7)
 
 
 def check_adv(case):
@@ -151,17 +187,25 @@ def run(ctx):
     ctx.verify(eng, cn.VERIFY, min_obligations={cn.VERIFY[0].key: 12})
     eng2 = mk_engine(contracts=cn.SITE_CONTRACTS, field_classes=cn.SITE_FIELD_CLASSES)
     ctx.verify(eng2, cn.SITES, min_obligations={s.key: 20 for s in cn.SITES})
+    for key, obs, info in cn.loop_site_obligations():
+        for u in info.get("unsupported", []):
+            ctx.unsupported.append((key, u))
+        if len(obs) < 3 and not info.get("unsupported"):
+            ctx.checker_errors.append(f"only {len(obs)} insertion-site obligations for {key}")
+        ctx.discharge(obs, key + " [insertion loop body]", info)
     ctx.assumptions += ["callee contracts used at the insertion sites (io_for_resolving, copy_port, "
                         "which_portref_to_name, _Instance.connect) are frame-only abstractions: they do not touch "
                         "module namespaces (connect: proved under C04; the others: assumed)",
-                        "insertion sites in arrays.py, inst_bundles.py and flatten_bundles.py are covered by the "
-                        "bounded part only"]
+                        "loop insertion sites (arrays.py, flatten_bundles.py, inst_bundles.py): one arbitrary iteration "
+                        "from an arbitrary state is proved; Path.to_name and the Instance constructor are abstracted "
+                        "(a string / a new named Instance)"]
     ctx.run_bounded("adversarial-names", adversarial_designs(), check_adv,
                     rule="designer signals/instances named exactly as the elaborator's inventions (inst_port, "
                          "noconn names, bundle_member, array_k, pair_member) with 0-2 trailing underscores, declared "
-                         "before or after the construct; oracle: reference meaning + identity of designer objects; "
+                         "before or after the construct; invented names that clash with each other (bundle members a_b vs a.b, "
+                         "implicit signals i0.a_b vs i0_a.b); oracle: reference meaning + identity of designer objects; "
                          "all distinct and non-trivial",
-                    bound="5 naming rules x 3 suffixes x 2 orders", key_of=lambda c: c[0])
+                    bound="5 naming rules x 3 suffixes x 2 orders + 4 self-clash designs", key_of=lambda c: c[0])
     return INFO
 
 
